@@ -253,6 +253,13 @@ type world struct {
 	// statement), so append-path based checks stop there.
 	updated bool
 	rootOf  []byte // cached model root of list (invalidated by append/update)
+	// alias selects the shared-backing-array layouts tried for the calls of the current operation (aliasModesFor);
+	// aliasGrow the same for the calls made while the tree grows (appendChecked, checkState).
+	alias, aliasGrow int
+	// scratchAppend: Append gets its value as a window of one scratch buffer that is overwritten after every call (a caller
+	// re-using its buffer) instead of a fresh copy.
+	scratchAppend bool
+	scratch       []byte
 }
 
 func (w *world) modelRoot() []byte {
@@ -282,9 +289,23 @@ func (w *world) checkState() {
 	n := len(w.list)
 	want := m.Root(w.list)
 	var batch []byte
-	must(w.f, "CalculateRoot", w.ctx, func() { batch = rmt.CalculateRoot(copyList(w.list)) })
+	dataArg := copyList(w.list)
+	g := newGuard(w.f, w.ctx)
+	g.list("data", dataArg)
+	must(w.f, "CalculateRoot", w.ctx, func() { batch = rmt.CalculateRoot(dataArg) })
+	g.verify("CalculateRoot")
 	if !bytes.Equal(batch, want) {
 		w.f.Fatalf("CalculateRoot(list) = %x, LIP-0031 model root = %x\n%s", batch, want, w.ctx())
+	}
+	if n <= 512 && (n < 20 || n%5 == 2) {
+		// the same data slices a second time, and laid out in one buffer
+		must(w.f, "CalculateRoot (same argument again)", w.ctx, func() { batch = rmt.CalculateRoot(dataArg) })
+		g.verify("CalculateRoot")
+		if !bytes.Equal(batch, want) {
+			w.f.Fatalf("CalculateRoot(list) on the second call with the same slices = %x, model root = %x\n%s", batch, want, w.ctx())
+		}
+		aliasPure(w.f, "CalculateRoot", w.ctx, aliasModesFor(w.aliasGrow), []string{"data"}, [][][]byte{w.list}, nil, hx(want),
+			func(a *aliasArgs) string { return hx(rmt.CalculateRoot(a.lists[0])) })
 	}
 	if !bytes.Equal(w.tr.Root(), want) {
 		w.f.Fatalf("Append-built Root() = %x, model root = %x\n%s", w.tr.Root(), want, w.ctx())
@@ -350,14 +371,40 @@ func dedupe(pos []int) []int {
 	return out
 }
 
+func renderPrediction(r *rmt.RootWithAppendPath) string {
+	if r == nil {
+		return "nil"
+	}
+	return fmt.Sprintf("root=%x size=%d path=%v", r.Root, r.Size, hxs(r.AppendPath))
+}
+
+// valueArg returns the slice handed to Append / CalculateRootFromAppendPath for the value v: a fresh copy, or (scratchAppend) a
+// window of the world's scratch buffer, which has spare capacity and live neighbours and is overwritten after the call.
+func (w *world) valueArg(g *guard, v []byte) []byte {
+	if !w.scratchAppend {
+		return g.bytes("value", append([]byte{}, v...))
+	}
+	if len(w.scratch) < len(v)+24 {
+		w.scratch = make([]byte, len(v)+64)
+	}
+	for i := range w.scratch {
+		w.scratch[i] = 0x5C
+	}
+	copy(w.scratch[8:], v)
+	g.bytes("the scratch buffer holding the value (window [8:8+len])", w.scratch)
+	return w.scratch[8 : 8+len(v)]
+}
+
 // appendChecked appends v through the real tree after predicting the result with CalculateRootFromAppendPath.
 func (w *world) appendChecked(v []byte) {
 	n := len(w.list)
 	oldPath := copyList(w.tr.AppendPath())
 	var pred *rmt.RootWithAppendPath
 	skipPred := w.updated
+	g := newGuard(w.f, w.ctx)
+	vArg := w.valueArg(g, v)
 	if !skipPred {
-		p, st := try(func() { pred = rmt.CalculateRootFromAppendPath(append([]byte{}, v...), w.tr.AppendPath(), uint64(n)) })
+		p, st := try(func() { pred = rmt.CalculateRootFromAppendPath(vArg, w.tr.AppendPath(), uint64(n)) })
 		if p != nil {
 			if f2Trigger(n) && strings.Contains(fmt.Sprint(p), "slice bounds out of range") && strings.Contains(st, "rmt.intToBinary") && evid.R.KnownFinding(sigF2) {
 				evid.R.Excluded(1)
@@ -366,12 +413,46 @@ func (w *world) appendChecked(v []byte) {
 				w.f.Fatalf("PANIC in CalculateRootFromAppendPath(v=%x, path=%v, size=%d): %v\n%s\n%s", v, hxs(oldPath), n, p, w.ctx(), st)
 			}
 		}
+		g.verify("CalculateRootFromAppendPath")
 		if !m.Equal(w.tr.AppendPath(), oldPath) {
 			w.f.Fatalf("CalculateRootFromAppendPath modified the tree's append path: before %v after %v\n%s", hxs(oldPath), hxs(w.tr.AppendPath()), w.ctx())
 		}
+		if !skipPred && (n < 40 || n%32 == 5) {
+			// same arguments again; arguments sharing backing arrays
+			want := renderPrediction(pred)
+			pathArg := copyList(oldPath)
+			g2 := newGuard(w.f, w.ctx)
+			g2.list("appendPath", pathArg)
+			for rep := 0; rep < 2; rep++ {
+				var again *rmt.RootWithAppendPath
+				must(w.f, "CalculateRootFromAppendPath (same arguments again)", w.ctx, func() { again = rmt.CalculateRootFromAppendPath(vArg, pathArg, uint64(n)) })
+				g.verify("CalculateRootFromAppendPath")
+				g2.verify("CalculateRootFromAppendPath")
+				if got := renderPrediction(again); got != want {
+					w.f.Fatalf("CalculateRootFromAppendPath(size=%d) with the same value and path slices: call %d gives %s, first call gave %s\n%s", n, rep+2, got, want, w.ctx())
+				}
+			}
+			aliasPure(w.f, "CalculateRootFromAppendPath", w.ctx, aliasModesFor(w.aliasGrow), []string{"appendPath", "value"}, [][][]byte{oldPath, {v}}, nil, want,
+				func(a *aliasArgs) string {
+					return renderPrediction(rmt.CalculateRootFromAppendPath(a.lists[1][0], a.lists[0], uint64(n)))
+				})
+		}
 	}
+	// slices a caller got from Root() / AppendPath() before the call (the append path at size i is what VerifyRightWitness
+	// needs later) must not be rewritten by the append
+	liveRoot, livePath := w.tr.Root(), w.tr.AppendPath()
+	liveRootCopy := append([]byte{}, liveRoot...)
 	var err error
-	must(w.f, "Append", w.ctx, func() { err = w.tr.Append(append([]byte{}, v...)) })
+	must(w.f, "Append", w.ctx, func() { err = w.tr.Append(vArg) })
+	g.verify("Append")
+	if !bytes.Equal(liveRoot, liveRootCopy) || !m.Equal(livePath, oldPath) {
+		w.f.Fatalf("Append at size %d rewrote the slices returned by Root()/AppendPath() before the call: root %x -> %x, path %v -> %v\n%s",
+			n, liveRootCopy, liveRoot, hxs(oldPath), hxs(livePath), w.ctx())
+	}
+	if w.scratchAppend {
+		scribble(w.scratch) // the caller re-uses its buffer: the tree must not depend on it any more
+		evid.R.Label("reuse:append-scratch-buffer-overwritten", 1)
+	}
 	if err != nil {
 		w.f.Fatalf("Append(%x) at size %d: %v\n%s", v, n, err, w.ctx())
 	}
@@ -429,6 +510,10 @@ func flip(b []byte, bit int) []byte {
 }
 
 // checkProof: inclusion proof for the leaves at positions pos (order as given); tamper lists the query slots to corrupt.
+//
+// Argument discipline: ONE set of argument objects (the query hash list handed to GenerateProof, the proof object it returned,
+// one root slice) is used for every call below - positive, negative, positive again, update through the proof - and compared
+// with deep copies after every call; the answers must equal those obtained with fresh deep copies.
 func (w *world) checkProof(pos []int, tamper []int, salt int) {
 	n := len(w.list)
 	root := w.modelRoot()
@@ -437,9 +522,14 @@ func (w *world) checkProof(pos []int, tamper []int, salt int) {
 		q[j] = m.LeafHash(w.list[p])
 	}
 	c := func() string { return fmt.Sprintf("proof for positions %v\n%s", pos, w.ctx()) }
+	evid.R.Label("proof-"+orderKind(pos), 1)
 	var proof *rmt.Proof
 	var err error
-	must(w.f, "GenerateProof", c, func() { proof, err = w.tr.GenerateProof(copyList(q)) })
+	qArg := copyList(q)
+	gq := newGuard(w.f, c)
+	gq.list("queryHashes", qArg)
+	must(w.f, "GenerateProof", c, func() { proof, err = w.tr.GenerateProof(qArg) })
+	gq.verify("GenerateProof")
 	if err != nil {
 		w.f.Fatalf("GenerateProof: %v\n%s", err, c())
 	}
@@ -451,13 +541,47 @@ func (w *world) checkProof(pos []int, tamper []int, salt int) {
 			w.f.Fatalf("GenerateProof: idxs %v, idx[%d] should be %d (LIP-0031 index of leaf %d)\n%s", proof.Idxs, j, m.LeafIndex(n, p), p, c())
 		}
 	}
-	cp := func() *rmt.Proof {
-		return &rmt.Proof{Size: proof.Size, Idxs: append([]uint64{}, proof.Idxs...), SiblingHashes: copyList(proof.SiblingHashes)}
+	ref := cloneProof(proof) // what GenerateProof returned
+	cp := func() *rmt.Proof { return cloneProof(ref) }
+	// heavy: the part of the re-use / aliasing programme that costs several more engine calls runs for every small query in a
+	// non-ascending order (half of the two-leaf ones) and for an eighth of the rest
+	heavy := salt%8 == 0 || (len(pos) >= 2 && len(pos) <= 16 && orderKind(pos) != "order=ascending" && (len(pos) > 2 || salt%2 == 1))
+	// the same query slices again (second use of the argument) and laid out in one buffer: same proof
+	if heavy {
+		wantProof := renderProof(ref, nil)
+		var p2 *rmt.Proof
+		must(w.f, "GenerateProof (same argument again)", c, func() { p2, err = w.tr.GenerateProof(qArg) })
+		gq.verify("GenerateProof")
+		if got := renderProof(p2, err); got != wantProof {
+			w.f.Fatalf("GenerateProof with the same query slices a second time gives %s, first call gave %s\n%s", got, wantProof, c())
+		}
+		aliasPure(w.f, "GenerateProof", c, aliasModesFor(w.alias), []string{"queryHashes"}, [][][]byte{q}, nil, wantProof,
+			func(a *aliasArgs) string { return renderProof(w.tr.GenerateProof(a.lists[0])) })
 	}
+	rootArg := append([]byte{}, root...)
+	g := newGuard(w.f, c)
+	g.list("queryHashes", qArg)
+	g.proof("proof", proof)
+	g.bytes("rootHash", rootArg)
 	var ok bool
-	must(w.f, "VerifyProof", c, func() { ok = rmt.VerifyProof(copyList(q), cp(), append([]byte{}, root...)) })
-	if !ok {
-		w.f.Fatalf("VerifyProof rejects a generated proof: idxs=%v siblings=%v root=%x\n%s", proof.Idxs, hxs(proof.SiblingHashes), root, c())
+	// the returned proof object itself (first use = the arguments are as fresh as deep copies; it is used again for every
+	// call below)
+	reps := 1
+	if heavy {
+		// fresh deep copies as well, and a second use directly after the first
+		must(w.f, "VerifyProof", c, func() { ok = rmt.VerifyProof(copyList(q), cp(), append([]byte{}, root...)) })
+		if !ok {
+			w.f.Fatalf("VerifyProof rejects a generated proof: idxs=%v siblings=%v root=%x\n%s", proof.Idxs, hxs(proof.SiblingHashes), root, c())
+		}
+		reps = 2
+	}
+	for rep := 1; rep <= reps; rep++ {
+		must(w.f, "VerifyProof", c, func() { ok = rmt.VerifyProof(qArg, proof, rootArg) })
+		g.verify("VerifyProof")
+		if !ok {
+			w.f.Fatalf("VerifyProof rejects a generated proof on use %d of the same proof object (fresh deep copies of the same arguments verify): idxs=%v (generated %v) siblings=%v root=%x\n%s",
+				rep, proof.Idxs, ref.Idxs, hxs(proof.SiblingHashes), root, c())
+		}
 	}
 	// any other root => false
 	otherRoots := [][]byte{flip(root, salt), m.EmptyHash(), {}}
@@ -470,7 +594,11 @@ func (w *world) checkProof(pos []int, tamper []int, salt int) {
 		if bytes.Equal(r, root) {
 			continue
 		}
-		must(w.f, "VerifyProof(other root)", c, func() { ok = rmt.VerifyProof(copyList(q), cp(), r) })
+		gr := newGuard(w.f, c)
+		gr.bytes("rootHash", r)
+		must(w.f, "VerifyProof(other root)", c, func() { ok = rmt.VerifyProof(qArg, proof, r) })
+		g.verify("VerifyProof(other root)")
+		gr.verify("VerifyProof(other root)")
 		if ok {
 			w.f.Fatalf("VerifyProof accepts the proof for a different root %x (real %x)\n%s", r, root, c())
 		}
@@ -500,16 +628,65 @@ func (w *world) checkProof(pos []int, tamper []int, salt int) {
 		for _, a := range alts {
 			q2 := copyList(q)
 			q2[j] = a
-			must(w.f, "VerifyProof(other leaf)", c, func() { ok = rmt.VerifyProof(q2, cp(), append([]byte{}, root...)) })
+			g2 := newGuard(w.f, c)
+			g2.list("queryHashes", q2)
+			must(w.f, "VerifyProof(other leaf)", c, func() { ok = rmt.VerifyProof(q2, proof, rootArg) })
+			g.verify("VerifyProof(other leaf)")
+			g2.verify("VerifyProof(other leaf)")
 			if ok {
 				w.f.Fatalf("VerifyProof accepts query slot %d replaced by %x (real leaf hash %x)\n%s", j, a, q[j], c())
 			}
 			evid.R.Label("neg-leaf", 1)
 		}
 	}
+	// after all the rejected uses the same objects still verify
+	must(w.f, "VerifyProof", c, func() { ok = rmt.VerifyProof(qArg, proof, rootArg) })
+	g.verify("VerifyProof")
+	if !ok {
+		w.f.Fatalf("VerifyProof rejects the generated proof after the same proof object was used for rejected verifications: idxs=%v (generated %v)\n%s", proof.Idxs, ref.Idxs, c())
+	}
+	evid.R.Label("reuse:proof-verified-again-after-other-uses", 1)
+	// arguments sharing backing arrays
+	aliasPure(w.f, "VerifyProof", c, aliasModesFor(w.alias), []string{"queryHashes", "proof.SiblingHashes", "rootHash"},
+		[][][]byte{q, ref.SiblingHashes, {root}}, ref.Idxs, "true", func(a *aliasArgs) string {
+			return strconv.FormatBool(rmt.VerifyProof(a.lists[0], &rmt.Proof{Size: ref.Size, Idxs: a.idxs, SiblingHashes: a.lists[1]}, a.lists[2][0]))
+		})
+	// verified, then used for an update: the same proof object gives the root fresh copies give (the model root of the
+	// modified list is compared in checkUpdate)
+	if heavy {
+		nd := make([][]byte, len(pos))
+		for j := range nd {
+			nd[j] = updLeaf(uint64(salt)<<20|uint64(n), j)
+		}
+		render := func(r []byte, err error) string {
+			if err != nil {
+				return "err:" + err.Error()
+			}
+			return hx(r)
+		}
+		var want, got string
+		must(w.f, "CalculateRootFromUpdateData", c, func() { want = render(rmt.CalculateRootFromUpdateData(copyList(nd), cp())) })
+		ndArg := copyList(nd)
+		g.list("updateData", ndArg)
+		for rep := 1; rep <= 2; rep++ {
+			must(w.f, "CalculateRootFromUpdateData", c, func() { got = render(rmt.CalculateRootFromUpdateData(ndArg, proof)) })
+			g.verify("CalculateRootFromUpdateData")
+			if got != want || strings.HasPrefix(got, "err:") {
+				w.f.Fatalf("CalculateRootFromUpdateData with the proof object that was verified before (use %d) = %s, with fresh deep copies = %s; proof idxs=%v (generated %v)\n%s",
+					rep, got, want, proof.Idxs, ref.Idxs, c())
+			}
+		}
+		evid.R.Label("reuse:proof-verified-then-update-root", 1)
+		must(w.f, "VerifyProof", c, func() { ok = rmt.VerifyProof(qArg, proof, rootArg) })
+		g.verify("VerifyProof")
+		if !ok {
+			w.f.Fatalf("VerifyProof rejects the generated proof after the same object was used by CalculateRootFromUpdateData: idxs=%v (generated %v)\n%s", proof.Idxs, ref.Idxs, c())
+		}
+	}
 }
 
-// checkWitness: right witness at index i against the append path of the first i leaves.
+// checkWitness: right witness at index i against the append path of the first i leaves. The witness object returned by the
+// tree and one append-path list are used for every call and compared with deep copies after each.
 func (w *world) checkWitness(i int, prefixPath [][]byte, salt int) {
 	n := len(w.list)
 	root := w.modelRoot()
@@ -523,9 +700,15 @@ func (w *world) checkWitness(i int, prefixPath [][]byte, salt int) {
 	if prefixPath == nil {
 		prefixPath = m.AppendPath(w.list[:i])
 	}
+	pathArg, rootArg := copyList(prefixPath), append([]byte{}, root...)
+	witRef := copyList(wit)
+	g := newGuard(w.f, c)
+	g.list("appendPath", pathArg)
+	g.list("rightWitness", wit)
+	g.bytes("root", rootArg)
 	var ok bool
 	p, st := try(func() {
-		ok = rmt.VerifyRightWitness(uint64(i), copyList(prefixPath), copyList(wit), append([]byte{}, root...))
+		ok = rmt.VerifyRightWitness(uint64(i), pathArg, wit, rootArg)
 	})
 	if p != nil {
 		if n == 0 && i == 0 && len(wit) == 0 && strings.Contains(fmt.Sprint(p), "index out of range [0] with length 0") && evid.R.KnownFinding(sigF3) {
@@ -534,21 +717,54 @@ func (w *world) checkWitness(i int, prefixPath [][]byte, salt int) {
 		}
 		w.f.Fatalf("PANIC in VerifyRightWitness(%d, %v, %v): %v\n%s\n%s", i, hxs(prefixPath), hxs(wit), p, c(), st)
 	}
+	g.verify("VerifyRightWitness")
 	if !ok {
 		w.f.Fatalf("VerifyRightWitness(%d, path=%v, witness=%v, root=%x) = false\n%s", i, hxs(prefixPath), hxs(wit), root, c())
 	}
+	bad := flip(root, salt)
 	must(w.f, "VerifyRightWitness(other root)", c, func() {
-		ok = rmt.VerifyRightWitness(uint64(i), copyList(prefixPath), copyList(wit), flip(root, salt))
+		ok = rmt.VerifyRightWitness(uint64(i), pathArg, wit, bad)
 	})
+	g.verify("VerifyRightWitness(other root)")
 	if ok {
 		w.f.Fatalf("VerifyRightWitness accepts a wrong root\n%s", c())
 	}
+	// the same witness and path slices again, after the rejected use
+	var calc []byte
+	must(w.f, "CalculateRootFromRightWitness", c, func() { calc = rmt.CalculateRootFromRightWitness(uint64(i), pathArg, wit) })
+	g.verify("CalculateRootFromRightWitness")
+	if !bytes.Equal(calc, root) {
+		w.f.Fatalf("CalculateRootFromRightWitness(%d) with the witness and path slices that were verified before = %x, root = %x (fresh copies verify)\n%s", i, calc, root, c())
+	}
+	must(w.f, "VerifyRightWitness", c, func() { ok = rmt.VerifyRightWitness(uint64(i), pathArg, wit, rootArg) })
+	g.verify("VerifyRightWitness")
+	if !ok {
+		w.f.Fatalf("VerifyRightWitness rejects on the second use of the same witness/path slices\n%s", c())
+	}
+	evid.R.Label("reuse:witness-verified-twice", 1)
+	aliasPure(w.f, "VerifyRightWitness", c, aliasModesFor(w.alias), []string{"appendPath", "rightWitness", "root"},
+		[][][]byte{prefixPath, witRef, {root}}, nil, "true", func(a *aliasArgs) string {
+			return strconv.FormatBool(rmt.VerifyRightWitness(uint64(i), a.lists[0], a.lists[1], a.lists[2][0]))
+		})
+	if w.alias >= 4 {
+		// witness laid out before the append path
+		aliasPure(w.f, "CalculateRootFromRightWitness", c, []string{"fullcap", "spare"}, []string{"rightWitness", "appendPath"},
+			[][][]byte{witRef, prefixPath}, nil, hx(root), func(a *aliasArgs) string {
+				return hx(rmt.CalculateRootFromRightWitness(uint64(i), a.lists[1], a.lists[0]))
+			})
+	}
 }
 
-// checkUpdate: replace the leaves at pos by newData through Update and through CalculateRootFromUpdateData.
-func (w *world) checkUpdate(pos []int, newData [][]byte) {
+// checkUpdate: replace the leaves at pos by newData through Update and through CalculateRootFromUpdateData; if newData2 is
+// given, a second update of the same positions follows. ONE proof object is verified, used for two different update-root
+// computations and its index slice handed to Update (twice); every argument is compared with deep copies after every call.
+func (w *world) checkUpdate(pos []int, newData, newData2 [][]byte) {
 	n := len(w.list)
-	c := func() string { return fmt.Sprintf("update positions %v with %v\n%s", pos, hxs(newData), w.ctx()) }
+	c := func() string {
+		return fmt.Sprintf("update positions %v with %v (second update: %v)\n%s", pos, hxs(newData), hxs(newData2), w.ctx())
+	}
+	evid.R.Label("update-"+orderKind(pos), 1)
+	root0 := w.modelRoot()
 	q := make([][]byte, len(pos))
 	idxs := make([]uint64, len(pos))
 	for j, p := range pos {
@@ -557,7 +773,11 @@ func (w *world) checkUpdate(pos []int, newData [][]byte) {
 	}
 	var proof *rmt.Proof
 	var err error
-	must(w.f, "GenerateProof", c, func() { proof, err = w.tr.GenerateProof(copyList(q)) })
+	qArg := copyList(q)
+	gq := newGuard(w.f, c)
+	gq.list("queryHashes", qArg)
+	must(w.f, "GenerateProof", c, func() { proof, err = w.tr.GenerateProof(qArg) })
+	gq.verify("GenerateProof")
 	if err != nil {
 		w.f.Fatalf("GenerateProof before update: %v\n%s", err, c())
 	}
@@ -566,20 +786,84 @@ func (w *world) checkUpdate(pos []int, newData [][]byte) {
 			w.f.Fatalf("GenerateProof before update: idxs %v, want %v\n%s", proof.Idxs, idxs, c())
 		}
 	}
+	ref := cloneProof(proof)
 	mod := copyList(w.list)
 	for j, p := range pos {
 		mod[p] = append([]byte{}, newData[j]...)
 	}
 	want := m.Root(mod)
+	var mod2 [][]byte
+	var want2 []byte
+	if newData2 != nil {
+		mod2 = copyList(mod)
+		for j, p := range pos {
+			mod2[p] = append([]byte{}, newData2[j]...)
+		}
+		want2 = m.Root(mod2)
+	}
+	ndArg, rootArg := copyList(newData), append([]byte{}, root0...)
+	g := newGuard(w.f, c)
+	g.proof("proof", proof)
+	g.list("queryHashes", qArg)
+	g.list("updateData", ndArg)
+	g.bytes("rootHash", rootArg)
+	// verified first (the natural sequence: GenerateProof -> VerifyProof -> update through the proof)
+	var ok bool
+	must(w.f, "VerifyProof", c, func() { ok = rmt.VerifyProof(qArg, proof, rootArg) })
+	g.verify("VerifyProof")
+	if !ok {
+		w.f.Fatalf("VerifyProof rejects the proof generated before the update: idxs=%v root=%x\n%s", proof.Idxs, root0, c())
+	}
 	var got []byte
-	must(w.f, "CalculateRootFromUpdateData", c, func() { got, err = rmt.CalculateRootFromUpdateData(copyList(newData), proof) })
+	must(w.f, "CalculateRootFromUpdateData", c, func() { got, err = rmt.CalculateRootFromUpdateData(ndArg, proof) })
+	g.verify("CalculateRootFromUpdateData")
 	if err != nil {
 		w.f.Fatalf("CalculateRootFromUpdateData: %v\n%s", err, c())
 	}
 	if !bytes.Equal(got, want) {
-		w.f.Fatalf("CalculateRootFromUpdateData = %x, model root of the modified list = %x (proof idxs %v)\n%s", got, want, proof.Idxs, c())
+		w.f.Fatalf("CalculateRootFromUpdateData = %x, model root of the modified list = %x (proof idxs %v, generated %v; the same proof object was verified before)\n%s",
+			got, want, proof.Idxs, ref.Idxs, c())
 	}
-	must(w.f, "Update", c, func() { err = w.tr.Update(append([]uint64{}, idxs...), copyList(newData)) })
+	// fresh deep copies give the same
+	must(w.f, "CalculateRootFromUpdateData", c, func() { got, err = rmt.CalculateRootFromUpdateData(copyList(newData), cloneProof(ref)) })
+	if err != nil || !bytes.Equal(got, want) {
+		w.f.Fatalf("CalculateRootFromUpdateData with fresh copies = %x (%v), model root of the modified list = %x\n%s", got, err, want, c())
+	}
+	if newData2 != nil {
+		// the same proof object for a second, different update
+		nd2Arg := copyList(newData2)
+		g2 := newGuard(w.f, c)
+		g2.list("updateData", nd2Arg)
+		must(w.f, "CalculateRootFromUpdateData", c, func() { got, err = rmt.CalculateRootFromUpdateData(nd2Arg, proof) })
+		g.verify("CalculateRootFromUpdateData")
+		g2.verify("CalculateRootFromUpdateData")
+		// the proof proves the ORIGINAL list: the second update root is that of the original list with newData2
+		modB := copyList(w.list)
+		for j, p := range pos {
+			modB[p] = append([]byte{}, newData2[j]...)
+		}
+		if wantB := m.Root(modB); err != nil || !bytes.Equal(got, wantB) {
+			w.f.Fatalf("CalculateRootFromUpdateData for a second update with the same proof object = %x (%v), model root = %x (proof idxs %v, generated %v)\n%s",
+				got, err, wantB, proof.Idxs, ref.Idxs, c())
+		}
+		must(w.f, "CalculateRootFromUpdateData", c, func() { got, err = rmt.CalculateRootFromUpdateData(ndArg, proof) })
+		g.verify("CalculateRootFromUpdateData")
+		if err != nil || !bytes.Equal(got, want) {
+			w.f.Fatalf("CalculateRootFromUpdateData (third use of the same proof object) = %x (%v), model root of the modified list = %x\n%s", got, err, want, c())
+		}
+		evid.R.Label("reuse:proof-used-for-two-update-roots", 1)
+	}
+	aliasPure(w.f, "CalculateRootFromUpdateData", c, aliasModesFor(w.alias), []string{"updateData", "proof.SiblingHashes"},
+		[][][]byte{newData, ref.SiblingHashes}, ref.Idxs, hx(want), func(a *aliasArgs) string {
+			r, err := rmt.CalculateRootFromUpdateData(a.lists[0], &rmt.Proof{Size: ref.Size, Idxs: a.idxs, SiblingHashes: a.lists[1]})
+			if err != nil {
+				return "err:" + err.Error()
+			}
+			return hx(r)
+		})
+	// the real update gets the index slice of the proof object used above
+	must(w.f, "Update", c, func() { err = w.tr.Update(proof.Idxs, ndArg) })
+	g.verify("Update")
 	if err != nil {
 		w.f.Fatalf("Update(%v): %v\n%s", idxs, err, c())
 	}
@@ -589,9 +873,41 @@ func (w *world) checkUpdate(pos []int, newData [][]byte) {
 	if w.tr.Size() != uint64(n) {
 		w.f.Fatalf("Size() after Update = %d, want %d\n%s", w.tr.Size(), n, c())
 	}
+	evid.R.Label("reuse:proof-verified-then-update", 1)
 	w.list = mod
 	w.rootOf = nil
 	w.updated = true
+	if newData2 != nil {
+		// second update of the same positions: the same index slice again, or arguments sharing backing arrays
+		modes := aliasModesFor(w.alias)
+		if len(modes) == 0 {
+			nd2Arg := copyList(newData2)
+			g.list("updateData(2)", nd2Arg)
+			must(w.f, "Update", c, func() { err = w.tr.Update(proof.Idxs, nd2Arg) })
+			g.verify("Update")
+			scribble(nd2Arg...)
+			evid.R.Label("reuse:index-slice-used-for-two-updates", 1)
+		} else {
+			a := buildAlias(modes[0], [][][]byte{newData2}, idxs)
+			ga := newGuard(w.f, c)
+			a.register(ga, []string{"updateData"})
+			must(w.f, "Update [arguments share backing arrays: "+modes[0]+"]", c, func() { err = w.tr.Update(a.idxs, a.lists[0]) })
+			ga.verify("Update [layout " + modes[0] + "]")
+			evid.R.Label("alias-update="+modes[0], 1)
+			if a.buf != nil {
+				scribble(a.buf)
+			}
+		}
+		if err != nil {
+			w.f.Fatalf("second Update(%v): %v\n%s", idxs, err, c())
+		}
+		if !bytes.Equal(w.tr.Root(), want2) || w.tr.Size() != uint64(n) {
+			w.f.Fatalf("Root()/Size() after the second Update(%v) = %x/%d, model root of the twice modified list = %x/%d\n%s", idxs, w.tr.Root(), w.tr.Size(), want2, n, c())
+		}
+		w.list = mod2
+	}
+	// the caller re-uses its data buffers: the tree must not depend on them any more (state is checked by the callers)
+	scribble(ndArg...)
 	if !m.Equal(w.tr.AppendPath(), m.AppendPath(w.list)) {
 		evid.R.Label("obs:append-path-stale-after-update", 1) // observation only (outside the statement)
 	} else {
@@ -609,6 +925,8 @@ type caseSpec struct {
 	Pos     []int    `json:"pos,omitempty"`
 	Tamper  []int    `json:"tamper,omitempty"`
 	NewData []string `json:"newData,omitempty"`
+	NewData2 []string `json:"newData2,omitempty"` // second update of the same positions
+	Alias    int      `json:"alias,omitempty"`    // aliasModesFor selector used for the case
 	Index   int      `json:"index,omitempty"`
 }
 
@@ -626,6 +944,7 @@ func (r recFatal) Fatalf(format string, a ...any) {
 
 func buildWorld(f fataler, kind string, leaves [][]byte, full bool) *world {
 	w := newWorld(f, kind)
+	w.aliasGrow, w.scratchAppend = 5, len(leaves)%2 == 1
 	if full {
 		w.checkState()
 	}
@@ -647,6 +966,7 @@ func runSpec(f fataler, s caseSpec) {
 	}
 	w := buildWorld(f, s.DB, leaves, s.Op == "grow" || len(leaves) <= 64)
 	defer w.close()
+	w.alias = s.Alias
 	switch s.Op {
 	case "grow":
 	case "reload":
@@ -662,7 +982,11 @@ func runSpec(f fataler, s caseSpec) {
 	case "witness":
 		w.checkWitness(s.Index, nil, 1)
 	case "update":
-		w.checkUpdate(s.Pos, unhxs(s.NewData))
+		var nd2 [][]byte
+		if len(s.NewData2) > 0 {
+			nd2 = unhxs(s.NewData2)
+		}
+		w.checkUpdate(s.Pos, unhxs(s.NewData), nd2)
 		w.checkState()
 		w.reloadChecked()
 		w.checkState()
@@ -713,6 +1037,7 @@ func TestLengthsExhaustive(t *testing.T) {
 		w := newWorld(f, kind)
 		for n := 0; n <= N; n++ {
 			cur = n
+			w.aliasGrow, w.scratchAppend = n%6, n%3 != 0
 			if n%shards == shard {
 				w.checkState()
 				evid.R.Case(fmt.Sprintf("len|%s|%d", kind, n), rootNontrivial(n), func() any {
@@ -750,6 +1075,7 @@ func TestReloadExhaustive(t *testing.T) {
 	defer w.close()
 	for n := 1; n <= N; n++ {
 		cur = n - 1
+		w.aliasGrow, w.scratchAppend = (n+3)%6, n%2 == 0
 		w.appendChecked(leaves[n-1])
 		ok := w.reloadChecked()
 		w.checkState()
@@ -765,7 +1091,15 @@ func TestReloadExhaustive(t *testing.T) {
 
 // structured leaf subsets for a tree of n leaves (deterministic; random subsets come from the rapid test)
 func structuredSubsets(n int) [][]int {
+	out, _ := structuredSubsetsSplit(n)
+	return out
+}
+
+// structuredSubsetsSplit also returns the index of the first order variant (the sets before it are the ascending / reversed
+// sets of the original enumeration).
+func structuredSubsetsSplit(n int) ([][]int, int) {
 	var out [][]int
+	firstVariant := -1
 	for i := 0; i < n; i++ {
 		out = append(out, []int{i})
 	}
@@ -805,6 +1139,47 @@ func structuredSubsets(n int) [][]int {
 		if n >= 4 {
 			out = append(out, []int{k - 1, k, n - 1}, []int{0, k - 1, k})
 		}
+		firstVariant = len(out)
+		out = append(out, orderVariantSubsets(n, all, ev, od, right, ends, stride)...)
+	}
+	if firstVariant < 0 {
+		firstVariant = len(out)
+	}
+	for i := range out {
+		out[i] = dedupe(out[i])
+	}
+	return out, firstVariant
+}
+
+// orderVariantSubsets: query orders other than ascending: descending pairs, descending / shuffled versions of the structured
+// sets, the two sides of the split interleaved, a few leaves picked in a scattered order (5, 2, 7, 0 - like). n >= 3.
+func orderVariantSubsets(n int, all, ev, od, right, ends, stride []int) [][]int {
+	var out [][]int
+	k := m.Split(n)
+	{
+		for i := n % 5; i+1 < n; i += 5 {
+			out = append(out, []int{i + 1, i})
+		}
+		out = append(out, reversed(ends))
+		switch n % 3 { // the large ones in turn (cost)
+		case 0:
+			out = append(out, strided(all, n/2), reversed(stride))
+		case 1:
+			out = append(out, reversed(right), strided(stride, 2), reversed(od))
+		case 2:
+			out = append(out, strided(right, 1), strided(ev, 1))
+		}
+		var inter, scat []int
+		for i := 0; i < 4 && k+i < n; i++ {
+			inter = append(inter, k+i, i)
+		}
+		for _, x := range []int{5, 2, 7, 0, 11, 3} {
+			scat = append(scat, (x*(n/8+1)+n/3)%n)
+		}
+		out = append(out, inter, scat)
+		if n >= 4 {
+			out = append(out, []int{n - 1, k, k - 1}, []int{k, 0, k - 1})
+		}
 	}
 	for i := range out {
 		out[i] = dedupe(out[i])
@@ -829,6 +1204,7 @@ func TestProofsExhaustive(t *testing.T) {
 	if replaying() {
 		t.Skip()
 	}
+	t.Parallel() // independent world; runs next to the other enumerations and TestRandomTrees (wall time)
 	N := 200
 	if evid.Thorough() {
 		N = evid.Scale(900)
@@ -844,7 +1220,8 @@ func TestProofsExhaustive(t *testing.T) {
 		if n%shards != shard {
 			continue
 		}
-		for si, pos := range structuredSubsets(n) {
+		subsets, firstVariant := structuredSubsetsSplit(n)
+		for si, pos := range subsets {
 			tamper := []int{0, len(pos) - 1, len(pos) / 2}
 			if len(pos) > 16 {
 				tamper = []int{(n + si) % len(pos)}
@@ -852,11 +1229,19 @@ func TestProofsExhaustive(t *testing.T) {
 			if n > 64 && len(pos) <= 2 && si%5 != 0 {
 				tamper = nil // negative variants for every 5th small subset only (cost)
 			}
-			spec = caseSpec{Op: "proof", DB: "map", Leaves: hxs(leaves[:n]), Pos: pos, Tamper: tamper}
+			if si >= firstVariant && tamper != nil {
+				// order variants of sets whose negative variants ran above: one tampered slot, for every third pair only
+				tamper = []int{(n + si) % len(pos)}
+				if len(pos) <= 2 && si%3 != 0 {
+					tamper = nil
+				}
+			}
+			w.alias = (n + si) % 24
+			spec = caseSpec{Op: "proof", DB: "map", Leaves: hxs(leaves[:n]), Pos: pos, Tamper: tamper, Alias: w.alias}
 			w.checkProof(pos, tamper, n+si)
 			evid.R.Case(fmt.Sprintf("proof|%d|%v", n, pos), subsetNontrivial(n, pos), func() any {
 				return map[string]any{"kind": "proof-exhaustive", "n": n, "positions": pos}
-			}, "proof-exhaustive", subsetKind(n, pos), sizeClass(n))
+			}, "proof-exhaustive", subsetKind(n, pos), sizeClass(n), orderKind(pos))
 		}
 	}
 }
@@ -866,6 +1251,7 @@ func TestWitnessExhaustive(t *testing.T) {
 	if replaying() {
 		t.Skip()
 	}
+	t.Parallel() // independent world; runs next to the other enumerations and TestRandomTrees (wall time)
 	N := 260
 	if evid.Thorough() {
 		N = evid.Scale(1300)
@@ -890,7 +1276,8 @@ func TestWitnessExhaustive(t *testing.T) {
 			f.Fatalf("append path at size %d differs from the model", n)
 		}
 		for i := 0; i <= n; i++ {
-			spec = caseSpec{Op: "witness", DB: "map", Leaves: hxs(leaves[:n]), Index: i}
+			w.alias = (n + i) % 12
+			spec = caseSpec{Op: "witness", DB: "map", Leaves: hxs(leaves[:n]), Index: i, Alias: w.alias}
 			w.checkWitness(i, paths[i], n+i)
 			lab := "witness=inner"
 			if i == 0 {
@@ -932,6 +1319,21 @@ func updateSets(n int) [][]int {
 		if n-k >= 2 {
 			out = append(out, []int{k, n - 1})
 		}
+		// index orders other than ascending
+		out = append(out, []int{n - 1, 0}, []int{k, 0, k - 1}, []int{(n/3 + 1) % n, n / 3})
+		switch n % 4 { // the large ones in turn (cost)
+		case 0:
+			out = append(out, reversed(all))
+		case 1:
+			out = append(out, strided(od, 1))
+		case 2:
+			out = append(out, strided(all, n/2))
+		}
+		var scat []int
+		for _, x := range []int{5, 2, 7, 0, 11, 3} {
+			scat = append(scat, (x*(n/8+1)+n/3)%n)
+		}
+		out = append(out, scat)
 	}
 	for i := range out {
 		out[i] = dedupe(out[i])
@@ -952,6 +1354,7 @@ func TestUpdatesExhaustive(t *testing.T) {
 	if replaying() {
 		t.Skip()
 	}
+	t.Parallel() // independent world; runs next to the other enumerations and TestRandomTrees (wall time)
 	N := 130
 	if evid.Thorough() {
 		N = evid.Scale(520)
@@ -969,10 +1372,18 @@ func TestUpdatesExhaustive(t *testing.T) {
 		}
 		for si, pos := range updateSets(n) {
 			nd := make([][]byte, len(pos))
+			var nd2 [][]byte
+			if (n+si)%4 == 0 {
+				nd2 = make([][]byte, len(pos))
+			}
 			for j := range pos {
 				nd[j] = newLeaf(n, si, j)
+				if nd2 != nil {
+					nd2[j] = newLeaf(n, 1000+si, j)
+				}
 			}
-			spec = caseSpec{Op: "update", DB: "map", Leaves: hxs(leaves[:n]), Pos: pos, NewData: hxs(nd)}
+			alias := (n/2 + si) % 6
+			spec = caseSpec{Op: "update", DB: "map", Leaves: hxs(leaves[:n]), Pos: pos, NewData: hxs(nd), NewData2: hxs(nd2), Alias: alias}
 			// fresh copy of the storage; the copy is opened the way a restarted process would do it
 			var w *world
 			cl := base.db.(*mapDB).clone()
@@ -985,7 +1396,8 @@ func TestUpdatesExhaustive(t *testing.T) {
 			} else {
 				w = &world{f: f, kind: "map", db: cl, closer: func() {}, tr: t2, list: copyList(base.list)}
 			}
-			w.checkUpdate(pos, nd)
+			w.alias = alias
+			w.checkUpdate(pos, nd, nd2)
 			w.checkState()
 			// the updated tree is a tree of the modified list: proofs of its leaves verify, it survives a reload
 			w.checkProof(pos, []int{0}, n+si)
@@ -997,7 +1409,7 @@ func TestUpdatesExhaustive(t *testing.T) {
 			w.checkState()
 			evid.R.Case(fmt.Sprintf("upd|%d|%v", n, pos), subsetNontrivial(n, pos), func() any {
 				return map[string]any{"kind": "update-exhaustive", "n": n, "positions": pos}
-			}, "update-exhaustive", subsetKind(n, pos), sizeClass(n))
+			}, "update-exhaustive", subsetKind(n, pos), sizeClass(n), orderKind(pos))
 		}
 	}
 }
@@ -1153,9 +1565,12 @@ func drawSubset(t *rapid.T, n int) []int {
 			pos = []int{0}
 		}
 	}
-	if rapid.IntRange(0, 2).Draw(t, "order") == 0 {
+	switch o := rapid.IntRange(0, 4).Draw(t, "order"); {
+	case o == 0:
 		sort.Ints(pos)
-	} else if len(pos) > 1 && len(pos) <= 64 {
+	case o == 1:
+		sort.Sort(sort.Reverse(sort.IntSlice(pos)))
+	case len(pos) > 1 && len(pos) <= 64:
 		pos = rapid.Permutation(pos).Draw(t, "perm")
 	}
 	return pos
@@ -1164,6 +1579,9 @@ func drawSubset(t *rapid.T, n int) []int {
 func TestRandomTrees(t *testing.T) {
 	if os.Getenv("VERIF_REPLAY_CASE") != "" {
 		t.Skip()
+	}
+	if os.Getenv("VERIF_REPLAY") == "" {
+		t.Parallel()
 	}
 	maxExp := 12
 	if evid.Thorough() {
@@ -1179,6 +1597,8 @@ func TestRandomTrees(t *testing.T) {
 		}
 		w := newWorld(t, kind)
 		defer w.close()
+		w.aliasGrow = rapid.IntRange(0, 5).Draw(t, "aliasGrow")
+		w.scratchAppend = rapid.Bool().Draw(t, "scratchAppend")
 		labels := []string{"random-tree", sizeClass(n1), magnitude(n1), "db=" + kind, "leaves=" + style}
 		nontrivial := false
 		// phase 1: grow, with reloads at drawn sizes; state compared at a few checkpoints and at the end
@@ -1215,12 +1635,15 @@ func TestRandomTrees(t *testing.T) {
 				for j := 0; j < 2; j++ {
 					tamper = append(tamper, rapid.IntRange(0, len(pos)-1).Draw(t, "tamper"))
 				}
+				w.alias = rapid.IntRange(0, 5).Draw(t, "alias")
 				w.checkProof(pos, tamper, rapid.IntRange(0, 255).Draw(t, "salt"))
 				nontrivial = nontrivial || subsetNontrivial(n1, pos)
 				evid.R.Label("op=proof", 1)
 				evid.R.Label("rnd-"+subsetKind(n1, pos), 1)
+				evid.R.Label("rnd-"+orderKind(pos), 1)
 			case 2:
 				i := rapid.IntRange(0, n1).Draw(t, "witnessIndex")
+				w.alias = rapid.IntRange(0, 5).Draw(t, "alias")
 				w.checkWitness(i, nil, rapid.IntRange(0, 255).Draw(t, "salt"))
 				evid.R.Label("op=witness", 1)
 			}
@@ -1239,7 +1662,9 @@ func TestRandomTrees(t *testing.T) {
 				evid.R.Label("op=reload", 1)
 			}
 			pos := drawSubset(t, len(w.list))
+			w.alias = rapid.IntRange(0, 5).Draw(t, "alias")
 			w.checkProof(pos, []int{0}, 3)
+			evid.R.Label("rnd-"+orderKind(pos), 1)
 			w.checkWitness(rapid.IntRange(0, len(w.list)).Draw(t, "witnessIndex2"), nil, 5)
 			nontrivial = nontrivial || subsetNontrivial(len(w.list), pos)
 		}
@@ -1252,6 +1677,10 @@ func TestRandomTrees(t *testing.T) {
 				pos = pos[:64]
 			}
 			nd := make([][]byte, len(pos))
+			var nd2 [][]byte
+			if rapid.Bool().Draw(t, "secondUpdate") {
+				nd2 = make([][]byte, len(pos))
+			}
 			salt := rapid.Uint64().Draw(t, "newSeed")
 			present := map[string]bool{}
 			for _, l := range w.list {
@@ -1266,10 +1695,19 @@ func TestRandomTrees(t *testing.T) {
 					nd[j] = append(nd[j], byte(u), byte(j), 0xfd)
 				}
 				present[string(nd[j])] = true
+				if nd2 != nil {
+					nd2[j] = updLeaf(salt, u*1000+500+j)
+					for present[string(nd2[j])] {
+						nd2[j] = append(nd2[j], byte(u), byte(j), 0xfc)
+					}
+					present[string(nd2[j])] = true
+				}
 			}
-			w.checkUpdate(pos, nd)
+			w.alias = rapid.IntRange(0, 5).Draw(t, "alias")
+			w.checkUpdate(pos, nd, nd2)
 			w.checkState()
 			evid.R.Label("op=update", 1)
+			evid.R.Label("rnd-update-"+orderKind(pos), 1)
 			nontrivial = nontrivial || subsetNontrivial(n, pos)
 			if rapid.Bool().Draw(t, "reloadAfterUpdate") && w.reloadChecked() {
 				w.checkState()
